@@ -202,6 +202,51 @@ theorem f90_junction_copy (row : List K) (h2 : 2 ≤ row.length) (h4 : row.lengt
   | [a, b, c, d], _, _ => rfl
   | _ :: _ :: _ :: _ :: _ :: _, _, h => simp at h; omega
 
+/-- THE CURRENT SOURCE (both implementations, every number of nodes, since the repair e1b4310): `subdivide_nodes` ends by copying the
+    last left value into the first right slot, so in ANY arithmetic - no law assumed, `K` may be binary64 - the two halves share
+    their junction point bit for bit.  (`py_junction_same_value` above only says that the two junction dot products have the same
+    coefficient lists; defect F-B showed that BLAS need not round two equal dot products alike, hence the copy.) -/
+theorem junction_copied (lr : List K × List K) (h1 : lr.1 ≠ []) (h2 : lr.2 ≠ []) :
+    (withJunction lr).1.getLast? = (withJunction lr).2.head? := by
+  obtain ⟨l, r⟩ := lr
+  cases r with
+  | nil => exact absurd rfl h2
+  | cons y ys =>
+    simp only [withJunction, List.set_cons_zero, List.head?_cons]
+    rw [List.getLast?_eq_getLast_of_ne_nil h1, List.getLast_eq_getElem]
+    have hpos : 0 < l.length := List.length_pos_of_ne_nil h1
+    have hlt : l.length - 1 < l.length := by omega
+    simp [seq, List.getD_eq_getElem?_getD, List.getElem?_eq_getElem hlt]
+
+theorem py_junction_copied (row : List K) (h : 1 ≤ row.length) :
+    (Py.subdivideRowJ row).1.getLast? = (Py.subdivideRowJ row).2.head? := by
+  unfold Py.subdivideRowJ
+  apply junction_copied
+  · intro hnil
+    have := congrArg List.length hnil
+    simp [rowMul, leftMat, ncols, List.range_succ_eq_map] at this
+  · intro hnil
+    have := congrArg List.length hnil
+    simp [rowMul, rightMat, ncols, List.range_succ_eq_map] at this
+
+theorem f90_generic_junction_copied (row : List K) (h : 1 ≤ row.length) :
+    (F90.subdivideGenericRowJ row).1.getLast? = (F90.subdivideGenericRowJ row).2.head? := by
+  unfold F90.subdivideGenericRowJ
+  apply junction_copied
+  · intro hnil
+    have := congrArg List.length hnil
+    simp [F90.subdivideGenericRow] at this
+    subst this
+    simp at h
+  · intro hnil
+    have := congrArg List.length hnil
+    simp [F90.subdivideGenericRow] at this
+    subst this
+    simp at h
+
+/-- non-vacuity / the copy is visible: on a concrete 5-node row the right half starts with the last left value -/
+example : (F90.subdivideGenericRowJ ([1, 2, 4, 8, 16] : List ℚ)).2.head? = some (81 / 16) := by decide +kernel
+
 end Junction
 
 /-! ### non-vacuity: concrete cubic over ℚ -/
